@@ -15,11 +15,14 @@ def next_index(pid):
 
 def main():
     stored = {}
+    mapf = V + "/seeded/round4-map.json"
+    if os.path.exists(mapf):
+        stored = json.load(open(mapf))          # a re-run only adds what was confirmed since
     for pid in ["C%02d" % i for i in range(1, 21)]:
         for i in (1, 2, 3):
             out = "%s/%s/out" % (SEED, pid)
             cf, pf = "%s/confirm%d.json" % (out, i), "%s/patch%d.diff" % (out, i)
-            if not (os.path.exists(cf) and os.path.exists(pf)):
+            if not (os.path.exists(cf) and os.path.exists(pf)) or ("s%s-%d" % (pid, i)) in stored:
                 continue
             try:
                 c = json.load(open(cf))
@@ -55,8 +58,13 @@ def main():
     json.dump(stored, open(V + "/seeded/round4-map.json", "w"), indent=1)
     # neutral edits
     nmap = {}
+    nmapf = V + "/neutral/round4-map.json"
+    if os.path.exists(nmapf):
+        nmap = json.load(open(nmapf))
     for f in sorted(glob.glob("/tmp/res/nsuite/*.txt")):
         idn = os.path.basename(f)[:-4]
+        if ("n" + idn) in nmap:
+            continue
         txt = open(f).read()
         if not txt.startswith("206 passed 0 failed"):
             print("neutral not kept (suite):", idn, txt.strip())
